@@ -31,6 +31,14 @@ Fixpoint reduce_loop (eps : T) (N : list quat) (pairs : list (quat * quat)) (M c
 Definition reduce (eps : T) (N : list quat) (Gl Gr : list quat) (M : quat) : quat :=
   reduce_loop eps N (list_prod Gl Gr) M (qone O).
 
+(* the pairs the loop runs over for two groups given with their improper flags: proper x proper, then
+   improper x improper (quaternion parts; two improper operations map a misorientation to an equivalent one) *)
+Definition code_pairs (G1 G2 : list (quat * bool)) : list (quat * quat) :=
+  list_prod (map fst (filter (fun r => negb (snd r)) G1)) (map fst (filter (fun r => negb (snd r)) G2)) ++
+  list_prod (map fst (filter (fun r => snd r) G1)) (map fst (filter (fun r => snd r) G2)).
+Definition reduce_sym (eps : T) (N : list quat) (G1 G2 : list (quat * bool)) (M : quat) : quat :=
+  reduce_loop eps N (code_pairs G1 G2) M (qone O).
+
 (* the two plane normals attached to a distinguished point d, up to positive
    scaling: 1 + d and 1 - d *)
 Definition qadd (p q : quat) : quat :=
